@@ -4,7 +4,7 @@ import ast
 
 from ..program import AnalysisError, walk_local, dotted
 from ..analysis import Spec, src
-from ..rules import (GWF, EXC, mpt, need_func, stores_to, is_const,
+from ..rules import (guard_paths, literal_text, GWF, EXC, mpt, need_func, stores_to, is_const,
                      parent_map, raise_class)
 from . import common
 from .c12 import _first_exit
@@ -34,7 +34,8 @@ def run(prog, an, rep):
                'checker or a controlled scheduler')
     rep.run_rules(prog, an, [dedupe_pending_only, job_equality,
                              worker_shape, no_process_exit, worker_loop,
-                             accepted_means_enqueued, lockset_note])
+                             accepted_means_enqueued, ignored_events,
+                             lockset_note])
 
 
 def dedupe_pending_only(prog, an, rep):
@@ -394,6 +395,73 @@ def accepted_means_enqueued(prog, an, rep):
                                   isinstance(x.args[0], ast.Name), R,
                                   f.qname + ': put_job(job)', f.where(x),
                                   'put_job(%s)' % [src(a) for a in x.args])
+
+
+# The only reasons for which a webhook handler builds no job (the request is
+# still answered 200): frozen, read off the handlers; each entry is
+# (condition written without locals, value it has when the event is ignored)
+WH = 'bert_e.server.webhook'
+IGNORED_EVENTS = {
+    WH + '.handle_bitbucket_repo_event': [
+        ("event in ['commit_status_created', 'commit_status_updated']",
+         False),                                     # not a build status
+        ("json_data['commit_status']['state'] == 'INPROGRESS'", True),
+    ],
+    WH + '.handle_bitbucket_pr_event': [],
+    WH + '.handle_github_pr_event': [
+        ("github.PullRequestEvent(client=bert_e.client, **json_data).action"
+         " == 'closed'", True)],
+    WH + '.handle_github_issue_comment': [
+        ("github.IssueCommentEvent(client=bert_e.client, **json_data)"
+         ".pull_request", False)],                   # comment on an issue
+    WH + '.handle_github_pr_review_event': [],
+    WH + '.handle_github_status_event': [
+        ("github.StatusEvent(client=bert_e.client, **json_data).status.state"
+         " == 'INPROGRESS'", True)],
+    WH + '.handle_github_check_suite_event': [
+        ("github.CheckSuiteEvent(client=bert_e.client, **json_data).status"
+         ".state == 'INPROGRESS'", True)],
+}
+
+
+def ignored_events(prog, an, rep):
+    """An accepted webhook leads to a job unless it is one of the frozen
+    'nothing to evaluate' cases (build just started, PR closed, comment on
+    an issue, unrelated event key)."""
+    R = 'C13.EXH.ignored-events'
+    seen = 0
+    for f in prog.all_funcs():
+        if f.module.name != WH or not f.name.startswith('handle_') or \
+                f.parent is not None:
+            continue
+        seen += 1
+        table = IGNORED_EVENTS.get(f.qname)
+        if table is None:
+            rep.violation(R, f.qname + ': unknown webhook handler',
+                          f.where(), 'new webhook handler %s: list the '
+                          'events it ignores' % f.qname)
+            continue
+        want = {literal_text(f, t, v) for t, v in table}
+        c = an.cfg(f)
+        none_ret = {n.id for n in c.nodes.values() if n.kind == 'return' and
+                    (n.ast.value is None or is_const(n.ast.value, None))}
+        val_ret = {n.id for n in c.nodes.values() if n.kind == 'return'} - \
+            none_ret
+        got = set()
+        for path in guard_paths(an, f, none_ret | {c.exit}, avoid=val_ret):
+            rep.evaluated()
+            if not path:
+                got.add(('<unconditional>', True))
+                continue
+            atom, pol, _ = path[-1]
+            got.add(literal_text(f, atom, pol))
+        extra = sorted(got - want)
+        rep.check(not extra, R, f.qname + ': events ignored only for the '
+                  'listed reasons', f.where(), 'an accepted event produces '
+                  'no job when %s (not one of the %d listed reasons): the '
+                  'event is answered 200 and never evaluated' % (
+                      extra, len(want)))
+    rep.floor('C13 webhook handlers', seen, 7)
 
 
 def _status_code(e):
